@@ -129,6 +129,32 @@ def callers_of(spec, fkey, S):
     return sorted({(ck[1] if isinstance(ck, tuple) else ck) for ck, eid, cs in spec.edges.get((fkey, S), ())})
 
 
+def unlocked_origins(spec, fkey, S, mutex, limit=200):
+    """Where the unlocked context (fkey, S) comes from: the functions that were entered with `mutex` held and make the
+    call (chain) after releasing it, and the entry points that never took it.  A finding is identified by these, so that
+    a new way into the same unlocked code is a different finding."""
+    res = set()
+    seen = set()
+    st = [(fkey, S)]
+    while st and limit > 0:
+        limit -= 1
+        k = st.pop()
+        if k in seen:
+            continue
+        seen.add(k)
+        edges = list(spec.edges.get(k, ()))
+        if not edges:
+            ck = k[0]
+            res.add(ck[1] if isinstance(ck, tuple) else ck)
+            continue
+        for ck, eid, cs in edges:
+            if mutex in cs:
+                res.add(ck[1] if isinstance(ck, tuple) else ck)
+            else:
+                st.append((ck, cs))
+    return sorted(res)
+
+
 def acquirers(spec, prog, fkey, S, mutex, limit=50):
     """Call sites (function, eid) at which `mutex` is held because the calling
     function itself took it, on a call chain that leads to context (fkey, S)."""
